@@ -76,6 +76,9 @@ type InProof = InputProofTargets<F, Challenge, RecValMmcs<F, DIGEST_ELEMS, MyHas
 struct Cfg {
     config: Arc<MyConfig>,
     fri: FriVerifierParams,
+    /// false = the verification circuits are built with `noop_enable_recompose` (the examples'
+    /// `--disable-recompose-npo`): recompositions go through ALU rows, no recompose table
+    recompose_npo: bool,
 }
 
 impl StarkGenericConfig for Cfg {
@@ -118,7 +121,11 @@ where
             generate_poseidon2_trace::<Challenge, KoalaBearD4Width16>,
             default_koalabear_poseidon2_16(),
         );
-        circuit.enable_recompose::<F>(generate_recompose_trace::<F, Challenge>);
+        if self.recompose_npo {
+            circuit.enable_recompose::<F>(generate_recompose_trace::<F, Challenge>);
+        } else {
+            circuit.noop_enable_recompose::<F>(generate_recompose_trace::<F, Challenge>);
+        }
         Ok(())
     }
 
@@ -167,6 +174,8 @@ fn make_cfg(shape: usize) -> Cfg {
     Cfg {
         config: Arc::new(MyConfig::new(pcs, Challenger::new(perm))),
         fri: FriVerifierParams::with_mmcs(log_blowup, 0, 1, 1, P2),
+        // history shapes >= FRI_SHAPES.len() select the recompose-table-off variant
+        recompose_npo: shape < FRI_SHAPES.len(),
     }
 }
 
@@ -510,7 +519,8 @@ fn gen_history(rng: &mut SmallRng, tier: Tier, idx: usize) -> History {
         cur_batch_leaf = false;
     }
     History {
-        fri_shape: rng.random_range(0..FRI_SHAPES.len()),
+        // one history in five builds its verification circuits without the recompose table
+        fri_shape: rng.random_range(0..FRI_SHAPES.len()) + if rng.random_range(0..5u32) == 0 { FRI_SHAPES.len() } else { 0 },
         start,
         steps,
     }
@@ -781,6 +791,27 @@ fn slot_invariant(
 }
 
 fn run_history(h: &History, sample: bool) -> Vec<CaseResult> {
+    let mut rs = run_history_inner(h, sample);
+    if h.fri_shape >= FRI_SHAPES.len() {
+        // the recompose-table-off variant has its own signatures and counters
+        for r in rs.iter_mut() {
+            if let Verdict::Violated { signature, detail } = &mut r.verdict {
+                if detail.to_string().contains("non-primitive table count mismatch") {
+                    // one root cause whatever the step kinds: the layer's proof carries no recompose
+                    // table but the backend always expects one when it is consumed
+                    *signature = "layer-output-not-chainable/recompose-table-off/non-primitive-table-count-mismatch".to_string();
+                } else {
+                    signature.push_str("/recompose-table-off");
+                }
+            }
+            r.key.push_str("|recompose-table-off");
+            r.counters.push(("variant/recompose-table-off".into(), 1));
+        }
+    }
+    rs
+}
+
+fn run_history_inner(h: &History, sample: bool) -> Vec<CaseResult> {
     let cfg = make_cfg(h.fri_shape);
     let w = World {
         log_blowup: FRI_SHAPES[h.fri_shape % FRI_SHAPES.len()].0,
